@@ -1329,7 +1329,8 @@ def run(ctx):
         end = obs.get("end") or {}
         if end.get("restart_parses") and end.get("missing"):
             probs.append(f"at the end the paths listed in restart.toml lack files: {end['missing']}")
-        how = (f"the run died {obs['crash']['point'].replace('-', ' ')} (load/{obs['crash']['path']}/ stored at step {obs['crash']['step']}, restart.toml not yet rewritten), "
+        how = (f"the run died {'right after pstore.output returned' if obs['crash']['point'] == 'after-store' else 'when the step was about to rewrite restart.toml'} "
+               f"(load/{obs['crash']['path']}/ stored at step {obs['crash']['step']}, restart.toml not yet rewritten), "
                "was continued and the step was done again" if case["mode"] == "crash" else "the simulation was started again from infretis.toml in the folder of an earlier run")
         if probs and nviol["redo"] < 3:
             nviol["redo"] += 1
